@@ -993,3 +993,83 @@ pub fn execute(sc: &Scenario) -> Outcome {
         _ => Outcome::clean(&Digest::new(), Stats::default()),
     }
 }
+
+/// Real-parallel probe (a TRIGGER, not a decider): rules from the hash configuration are shared by
+/// real OS threads that really run in parallel for a moment; every verdict is compared with the
+/// sequential one. What it sees is not replayable (nobody decides who runs), so a deviation is
+/// reported as unconfirmed and the check runs the Miri tier - which does replay - to find an
+/// instance. On an engine whose verdicts are pure it can see nothing.
+pub fn parallel_probe(seed: u64, workers: usize, stats: &mut Stats) -> Option<String> {
+    use std::sync::atomic::{AtomicU64, Ordering};
+    use std::sync::Arc;
+    let mut rules: Vec<(Arc<Rule>, Vec<serde_json::Value>, Vec<bool>)> = vec![];
+    for run in 0..400u64 {
+        if rules.len() >= 60 {
+            break;
+        }
+        let sc = generate("hash", seed, run, false);
+        if crate::exec::heavy_rule(&sc.rule_text) || sc.rule_text.len() > 4000 || !sc.rule_text.contains('?') {
+            continue; // regexes: the searches with the most machinery behind them
+        }
+        tau_engine::verif::set_hash_seed(1);
+        tau_engine::verif::set_collapse_missing(false);
+        let rule = match load(&sc.rule_text) {
+            Loaded::Ok(r) => *r,
+            _ => continue,
+        };
+        let docs: Vec<serde_json::Value> = sc.docs.iter().filter_map(|d| d.to_json()).take(6).collect();
+        for r in [Some(rule.clone()), optimise(&rule, 15, 1).ok()].into_iter().flatten() {
+            let base: Vec<Option<bool>> = docs.iter().map(|d| crate::exec::guarded(|| r.matches(d)).ok()).collect();
+            if base.iter().all(|b| b.is_some()) && !docs.is_empty() {
+                rules.push((Arc::new(r), docs.clone(), base.into_iter().flatten().collect()));
+            }
+        }
+    }
+    if rules.is_empty() {
+        return None;
+    }
+    let rules = Arc::new(rules);
+    let matches = Arc::new(AtomicU64::new(0));
+    let deviations = Arc::new(AtomicU64::new(0));
+    let first: Arc<std::sync::Mutex<Option<String>>> = Arc::new(std::sync::Mutex::new(None));
+    let t0 = std::time::Instant::now();
+    let n = workers.clamp(2, 16);
+    let handles: Vec<_> = (0..n)
+        .map(|t| {
+            let (rules, matches, deviations, first) = (rules.clone(), matches.clone(), deviations.clone(), first.clone());
+            std::thread::Builder::new()
+                .stack_size(16 << 20)
+                .spawn(move || {
+                    let mut k = t * 7;
+                    while t0.elapsed().as_millis() < 1500 {
+                        let (rule, docs, base) = &rules[k % rules.len()];
+                        // neighbours work on the same rule half of the time, on another otherwise
+                        k += if k % 2 == 0 { n } else { 1 };
+                        for (i, d) in docs.iter().enumerate() {
+                            for _ in 0..2 {
+                                if let Ok(v) = crate::exec::guarded(|| rule.matches(d)) {
+                                    matches.fetch_add(1, Ordering::Relaxed);
+                                    if v != base[i] {
+                                        deviations.fetch_add(1, Ordering::Relaxed);
+                                        let mut f = first.lock().unwrap();
+                                        if f.is_none() {
+                                            *f = Some(format!("{} gave {} on {} while {} threads were matching in parallel, {} sequentially", show(rule), v, d, n, base[i]));
+                                        }
+                                    }
+                                }
+                            }
+                        }
+                    }
+                })
+                .expect("spawn")
+        })
+        .collect();
+    for h in handles {
+        let _ = h.join();
+    }
+    stats.add("parallel_probe_matches", matches.load(Ordering::Relaxed));
+    stats.add("parallel_probe_rules", rules.len() as u64);
+    stats.add("parallel_probe_deviations", deviations.load(Ordering::Relaxed));
+    let out = first.lock().unwrap().clone();
+    out
+}
